@@ -339,7 +339,7 @@ def _gen_case(rng, stream, style):
                 v["name"] = "c_%s.%s" % (v["name"], v["name"])
         vars_.append(v)
     if stream == "array-expr":
-        # an array literal whose elements are parameter expressions (findings C13-F1 / C13-F2)
+        # an array literal whose elements are parameter expressions or bare references (former findings C13-F1 / C13-F2)
         sc = [i for i, p in enumerate(pars) if p["type"] == "Real" and not p["dims"]]
         bare = rng.random() < 0.5
         n = rng.choice([2, 3])
@@ -811,7 +811,7 @@ def run(ctx):
     for c in corpus.load("C13"):
         ctx.count("corpus")
         check_case(ctx, c["case"] if "case" in c else c, drv)
-    plan = [("array-expr", 6 if quick else 40), ("main", 450 if quick else 4000)]
+    plan = [("array-expr", 30 if quick else 300), ("main", 450 if quick else 4000)]
     for stream, n in plan:
         for i in range(n):
             if ctx.time_left() < 0:
